@@ -7,8 +7,10 @@ extern "C" {
 
 void *new_fft_table(int32_t nn);
 double *fft_table_get_buffer(const void *tables);
+void delete_fft_table(void *tables);
 void *new_ifft_table(int32_t nn);
 double *ifft_table_get_buffer(const void *tables);
+void delete_ifft_table(void *tables);
 void fft_model(const void *tables);
 void ifft_model(void *tables);
 void fft(const void *tables, double *data);
